@@ -22,7 +22,7 @@ func allSpecs() map[string]*PropSpec {
 	add(&PropSpec{
 		ID:          "C15",
 		Technique:   "effect analysis of every range-over-map, sync.Map.Range and channel-receive loop (append/overwrite/exit effects with key aliases and sort sanitisers), history-independence rules of loader cache and workspace index",
-		Explanation: "History independence (responses are a function of the current contents, not of how the server got there): the workspace freshness rules C12-CLEAR / C12-REFRESH / C12-PAIR / T1 / T2, the loader cache rules G-CACHEPATH / G-CACHEINDEP / G-STATE / G-INVALIDATE and C-CACHE (per-document caches dropped on change). M-ORDER: every range over a Go map and every sync.Map.Range callback in non-test module code is classified by the effects of its body (interprocedural, parametric summaries); a loop whose iteration order can reach a response, notification or persistent index without passing a total sort is reported. Decides the map-order clause of determinism for all 2^n iteration orders at once. Loops that receive values from a channel are judged like map loops (arrival order depends on scheduling).",
+		Explanation: "History independence (responses are a function of the current contents, not of how the server got there): the workspace freshness rules C12-CLEAR / C12-REFRESH / C12-PAIR / T1 / T2, the loader cache rules G-CACHEPATH / G-CACHEINDEP / G-STATE / G-INVALIDATE and C-CACHE (per-document caches dropped on change); C12-UPDATE (the workspace is told about every change) and the growth rule of C20-ONCE (a path is appended to FileOrder only when it is not listed yet, so a file that is edited keeps its position and the order of aggregated files does not depend on the edit history). M-ORDER: every range over a Go map and every sync.Map.Range callback in non-test module code is classified by the effects of its body (interprocedural, parametric summaries); a loop whose iteration order can reach a response, notification or persistent index without passing a total sort is reported. Decides the map-order clause of determinism for all 2^n iteration orders at once. Loops that receive values from a channel are judged like map loops (arrival order depends on scheduling).",
 		NotDecided:  "non-determinism from sources other than Go map order (time.Now in date completion by design; file-system order is sorted by the loader); ties in unstable sorts over already-deterministic input.",
 		Rules:       []func(*Ctx){ruleMapOrder, ruleDeterminismState},
 	})
@@ -171,6 +171,8 @@ func ruleDeterminismState(c *Ctx) {
 	ruleC12Clear(c)
 	ruleC12Refresh(c)
 	ruleC12Pair(c)
+	ruleC12Update(c)
+	ruleFileOrderGrowth(c)
 	ruleLoaderCache(c)
 	if h, _, store, docField := changeHandler(c.P); h != nil {
 		ruleCacheFresh(c, h, store, docField)
